@@ -1270,7 +1270,9 @@ class FCN(object):
             batch = self.batch
         g, h = self.get_grad_hessp(x, p, batch)
         constr_grad = self.gauss_constr.get_constrain_grad()
-        constr_hessian = 0.0  # self.gauss_constr.get_constrain_hessp(p)
+        constr_hessian = np.dot(
+            self.gauss_constr.get_constrain_hessian(), np.array(p)
+        )
         return g + constr_grad, h + constr_hessian
 
     def get_grad_hessp(self, x, p, batch):
@@ -1425,7 +1427,10 @@ class CombineFCN(object):
     def grad_hessp(self, x, p, batch=None):
         grad, hessp = self.get_grad_hessp(x, p, batch)
         constr_grad = self.gauss_constr.get_constrain_grad()
-        return grad + constr_grad, hessp
+        constr_hessp = np.dot(
+            self.gauss_constr.get_constrain_hessian(), np.array(p)
+        )
+        return grad + constr_grad, hessp + constr_hessp
 
 
 class MixLogLikehoodFCN(CombineFCN):
